@@ -719,6 +719,17 @@ class NpProxy:
     def zeros_like(self, a, **kw):
         return self.zeros(_np.shape(a))
 
+    def linspace(self, start, stop, num=50, **kw):
+        if not has_sym([start, stop]) or kw:
+            return _real_np.linspace(start, stop, num, **kw)
+        # numpy: start + i * (stop - start) / (num - 1) for i < num - 1, and exactly `stop` as the last sample
+        num = int(num)
+        a, b = R(start), R(stop)
+        out = _np.empty(num, dtype=object)
+        for i in range(num):
+            out[i] = b if (i == num - 1 and num > 1) else (a + (b - a) * Fraction(i, max(num - 1, 1)))
+        return out.view(SArr)
+
     def eye(self, n, **kw):
         a = self.zeros((n, n))
         for i in range(n):
